@@ -240,7 +240,9 @@ func drawWFrame(t *rapid.T, enc *HEnc, openHeaders *uint32) wframe {
 		}
 		pl := drawBytes(t, "raw", 300)
 		return wframe{Desc: fmt.Sprintf("RAW type=%d flags=%#x s=%d len=%d", typ, flags, id, len(pl)), Ref: []Frame{{Type: typ, Flags: flags, Stream: id, Payload: pl}},
-			Write: func(fr *http2.Framer) error { return fr.WriteRawFrame(http2.FrameType(typ), http2.Flags(flags), id, pl) }}
+			Write: func(fr *http2.Framer) error {
+				return fr.WriteRawFrame(http2.FrameType(typ), http2.Flags(flags), id, pl)
+			}}
 	}
 }
 
